@@ -369,6 +369,40 @@ def opBitsRead (j : Json) : Except String Json := do
       | .error e => Json.mkObj [("err", e.name), ("got", Json.arr acc)]
   pure (go ws (BitReader.ofBytes bs) #[])
 
+/-- an entity with `nprops` client properties whose `pi`-th one is `p : t` holding `v` -/
+def nestedProbeEntity (t : Ty) (v : Val) (nprops pi : Nat) : Entity :=
+  let props : List PropDef := (List.range nprops).map fun i =>
+    if i = pi then PropDef.mk "p" t 0 else PropDef.mk ("_" ++ toString i) (.int 1 false) 0
+  let view : EntityView := EntityView.mk "E" [] props [] [] [] []
+  Entity.mk 1 view [("p", v)] [] [] []
+
+/-- `nested.encode`: the model's encoder for a nested update on one property, and the model's
+own reader applied to the result (the statement of `C06.nested_encode_apply`, executed) -/
+def opNestedEncode (st : State) (j : Json) : Except String Json := do
+  let t ← getTy st j
+  let v ← valOfJson (← j.getObjVal? "val")
+  let nprops ← getNat j "nprops"
+  let pi ← getNat j "pi"
+  let path ← (← j.getObjValAs? (Array Json) "path").toList.mapM natOfJson
+  let lj ← j.getObjVal? "leaf"
+  let kind ← lj.getObjValAs? String "k"
+  let op ← match kind with
+    | "dictSet" => do pure (LeafOp.dictSet (← getNat lj "i") (← valOfJson (← lj.getObjVal? "val")))
+    | "listSet" => do pure (LeafOp.listSet (← getNat lj "i") (← valOfJson (← lj.getObjVal? "val")))
+    | "listClear" => do pure (LeafOp.listClear (← getNat lj "i"))
+    | "slice" => do
+      let vals ← (← lj.getObjValAs? (Array Json) "vals").toList.mapM valOfJson
+      pure (LeafOp.slice (← getNat lj "i") (← getNat lj "j") vals)
+    | k => throw s!"unknown leaf kind {k}"
+  let e := nestedProbeEntity t v nprops pi
+  match encodeNested e pi path op with
+  | none => pure (Json.mkObj [("none", true)])
+  | some body =>
+    let after : Json := match applyNested {} e op.isSlice body with
+      | .ok (e', _, _) => (match dictGet? e'.client "p" with | some v' => valToJson v' | none => Json.null)
+      | .error _ => Json.mkObj [("err", "apply")]
+    pure (Json.mkObj [("ok", toHex body), ("after", after)])
+
 def pureOp (st : State) (r : Except String Json) : Except String (State × Json) := do
   pure (st, ← r)
 
@@ -390,6 +424,7 @@ def dispatch (st : State) (op : String) (j : Json) : Except String (State × Jso
   | "codec.encode" => pureOp st (opCodecEncode st j)
   | "codec.write" => pureOp st (opCodecWrite st j)
   | "codec.writeArgs" => pureOp st (opCodecWriteArgs j)
+  | "nested.encode" => pureOp st (opNestedEncode st j)
   | "bits.req" => pureOp st (opBitsReq j)
   | "bits.table" => pureOp st (opBitsTable j)
   | "bits.read" => pureOp st (opBitsRead j)
